@@ -128,7 +128,7 @@ def attribute(s, kind, findings):
 
 def run(ctx):
     findings = vlib.load_findings("C10")
-    st = vlib.proof_stage(ctx, "C10", PROOF_TARGETS, PROOF_FILES)
+    st = vlib.proof_stage(ctx, "C10", PROOF_TARGETS, PROOF_FILES, slices=["c10"])
     fok, flog = vlib.lean_build(ctx, [FINDINGS_TARGET]) if st["proof_ok"] else (False, "")
     cases = gen_cases(ctx)
     lines = [json.dumps(c, sort_keys=True) for c in cases]
@@ -138,9 +138,8 @@ def run(ctx):
             seen.add(l); ulines.append(l); ucases.append(c)
     # corpus first
     corpus = [json.dumps(f["witness"], sort_keys=True) for f in findings]
-    model_ok = st["proof_ok"] or vlib.os.path.exists(vlib.DRV)
-    impl = vlib.run_side(vlib.TVH, "c10", ulines, "impl")
-    model = vlib.run_side(vlib.DRV, "c10", ulines, "model") if model_ok else None
+    impl = vlib.run_side("impl", "c10", ulines)
+    model = vlib.run_side("model", "c10", ulines) if st["driver_ok"] else None
     disagreements = []
     unsupported = 0
     if model is not None:
@@ -163,7 +162,7 @@ def run(ctx):
         else: known_hit[f["id"]] = known_hit.get(f["id"], 0) + 1
     # known-finding witnesses: still failing?
     for f in findings:
-        a = vlib.run_side(vlib.TVH, "c10", [json.dumps(f["witness"])], "wit")[0]
+        a = vlib.run_side("impl", "c10", [json.dumps(f["witness"])], "wit")[0]
         if oracle(f["witness"], a, probes + f.get("probes", [])):
             vlib.known(ctx, f)
         else:
@@ -217,8 +216,8 @@ def replay(ctx, path):
     if "input" not in obj:
         print("replay file names broken obligations only:", obj.get("broken_obligations")); return 1
     line = json.dumps(obj["input"], sort_keys=True)
-    a = vlib.run_side(vlib.TVH, "c10", [line], "impl")[0]
-    b = vlib.run_side(vlib.DRV, "c10", [line], "model")[0] if vlib.os.path.exists(vlib.DRV) else "n/a"
+    a = vlib.run_side("impl", "c10", [line])[0]
+    b = vlib.run_side("model", "c10", [line])[0] if vlib.os.path.exists(vlib.drv("c10")) else "n/a"
     fails = oracle(obj["input"], a, full_lattice())
     print("input:", line); print("impl :", a); print("model:", b); print("oracle failures:", fails)
     return 1 if fails or a != b else 0
